@@ -52,7 +52,9 @@ structure Req where
 def sortTracks (l : List (Nat × List Event)) : List (Nat × List Event) :=
   (l.toArray.qsort (fun a b => a.1 < b.1)).toList
 
-/-- tokens: V:<n>, I:<id>=<psg|fm>:<k>:<expected bank index>, P:<id>=<w>,<w>…, T<id>:events -/
+/-- tokens: V:<n>, I:<id>=<psg|fm>:<k>:<expected bank index>, P:<id>=<w>,<w>…, T<id>:events,
+M:<id>=<c|x|l|v>:<k>:<expected bank index> (a pitch envelope `@M<id>`; `x` = the extended form; the bytes of the
+envelope are C11's subject — here only `pitch_map` / `pitch_extend`, which the harness echoes as `peg=`) -/
 def parseReq (arg : String) : Option Req := do
   let (song, rest) ← parseSong (words arg)
   let mut d : DataInfo := { insType := [(0, mdsIns_INS_UNDEFINED)], envelopeMap := [(0, 0)] }
@@ -71,6 +73,17 @@ def parseReq (arg : String) : Option Req := do
           let tyN := if ty == "psg" then mdsIns_INS_PSG else mdsIns_INS_FM
           d := { d with insType := (d.insType.filter (·.1 ≠ id)) ++ [(id, tyN)],
                         envelopeMap := (d.envelopeMap.filter (·.1 ≠ id)) ++ [(id, idx)] }
+        | _ => none
+      | _ => none
+    else if t.startsWith "M:" then
+      match (t.drop 2).toString.splitOn "=" with
+      | [id, spec] =>
+        let id ← parseInt? id
+        match spec.splitOn ":" with
+        | [ty, _, idx] =>
+          let idx ← idx.toNat?
+          d := { d with pitchMap := (d.pitchMap.filter (·.1 ≠ id)) ++ [(id, idx)],
+                        pitchExtend := (d.pitchExtend.filter (· ≠ id)) ++ (if ty == "x" then [id] else []) }
         | _ => none
       | _ => none
     else if t.startsWith "P:" then
@@ -95,11 +108,17 @@ def showIns (d : DataInfo) : String :=
   ",".intercalate (ids.map fun id =>
     s!"{id}:{(d.insType.lookup id).getD 0}:{match d.envelopeMap.lookup id with | some i => (i : Int) | none => -1}")
 
+def showPeg (d : DataInfo) : String :=
+  let ids := (d.pitchMap.map (·.1)).toArray.qsort (· < ·) |>.toList
+  if ids.isEmpty then "-" else
+  ",".intercalate (ids.map fun id =>
+    s!"{id}:{if d.pitchExtend.contains id then 1 else 0}:{(d.pitchMap.lookup id).getD 0}")
+
 def render (r : Req) (conv : Conv) (trackList : List (Nat × List MEv)) (seq : List Nat) : String :=
   let tl := if trackList.isEmpty then "-" else "|".intercalate (trackList.map fun (id, l) => s!"{id}:{showMevs l}")
   let subs := if conv.subList.isEmpty then "-" else "|".intercalate (conv.subList.map showMevs)
   let used := if conv.usedData.isEmpty then "-" else ",".intercalate (conv.usedData.map fun (m, i) => s!"{m}:{i}")
-  s!"seq={hexNat seq} tl={tl} subs={subs} macros={conv.macroList.length} used={used} ins={showIns r.data}"
+  s!"seq={hexNat seq} tl={tl} subs={subs} macros={conv.macroList.length} used={used} ins={showIns r.data} peg={showPeg r.data}"
 
 def model (arg : String) : String :=
   match parseReq arg with
@@ -169,6 +188,10 @@ def judgeC02 (arg impl : String) (same : Bool := true) : String :=
     let exps := chans.map fun (id, root) => (id, Timeline.expected r.song r.platformSpec root)
     if exps.any (fun (_, e) => match e with | .error _ => true | .ok _ => false) then
       if impl.startsWith "err:" then "ok" else "skip"   -- acceptance of invalid songs is C04's subject
+    else if r.song.tracks.any (fun (_, t) => t.any fun e =>
+        e.type = ev_PITCH_ENVELOPE && e.param != 0 && (r.data.pitchMap.lookup e.param).isNone) then
+      -- a pitch envelope that is not defined is an input error where the writer meets it: outside the encodable domain
+      if impl.startsWith "err:" then "ok" else "skip"
     else if r.data.platform.any (fun p => p.2.isNone) then
       -- a platform command whose text is malformed (empty, missing or out-of-range argument) is an input
       -- error when it is used: such a song is outside the encodable domain
@@ -285,15 +308,68 @@ def modelO (arg : String) : String :=
         | none => "MODEL:opt"
       else model (renderReq r o.song rest)
 
+/-- is this optimised case an instance of `C02_optimised_song_roundtrip_nodrum_partial` /
+`C03_optimised_song_wellformed_partial`: the original song meets C01's hypotheses and has no drum
+mode (`Fragment.optOriginalB`), the optimiser model's run validates, its result is in the fragment
+with every channel track in the domain, and the constructor model assembles from it exactly the real
+bytes (`provedInstance` on the optimised song) -/
+def provedInstanceO (ms : Int) (r : Req) (seq : List Nat) : Bool :=
+  match Opt.optimize validAll ms 100000 r.song (Opt.initialSubId r.song) [] with
+  | .ok o =>
+    o.validated && Fragment.optOriginalB r.song (Opt.initialSubId r.song) o.passes.length &&
+      ((o.song.tracks.filter (·.1 < 16)).all fun (_, root) => Timeline.inDomain o.song root) &&
+      provedInstance { r with song := o.song } seq
+  | .error _ => false
+
 /-- C02 on optimised songs: the bytes of the optimised song must play the ORIGINAL song -/
-def judgeO (arg impl : String) : String :=
-  let (_, rest) := splitScore arg
+def judgeO (useModel : Bool) (arg impl : String) : String :=
+  let (ms, rest) := splitScore arg
   if impl.startsWith "opterr:" ∨ impl.startsWith "optexc:" then "skip"   -- C01's subject
-  else judgeC02 rest impl false
+  else
+    let j := judgeC02 rest impl false
+    if j == "ok" && useModel then
+      match parseReq rest, (field impl "seq=").bind bytesOfHexNat with
+      | some r, some seq => if provedInstanceO ms r seq then "ok proved-fragment (optimised)" else j
+      | _, _ => j
+    else j
+
+/-- the optimised song as the model computes it (`none`: the optimiser model fails or the result does not validate) -/
+def optimised (ms : Int) (r : Req) : Option Song :=
+  match Opt.optimize validAll ms 100000 r.song (Opt.initialSubId r.song) [] with
+  | .ok o => if o.validated then some o.song else none
+  | .error _ => none
+
+/-- C03 on optimised songs (`convwfo <min_score> …`): the compiled sequence of the OPTIMISED song is judged by the
+well-formedness oracle; the song it is the compilation of is recomputed by the optimiser model (agreement of that
+model with the real optimiser is C01's correspondence; here the real bytes are compared with `construct` of it
+inside `provedInstance`).  `useModel := false` (`convwfox`, songs beyond the reach of the list-based optimiser
+model): judged against the original request — loop counts stay in 0..255 by `C01_optimize_counts_le_255` — and
+never marked as an instance. -/
+def judgeWfO (useModel : Bool) (arg impl : String) : String :=
+  let (ms, rest) := splitScore arg
+  if impl.startsWith "opterr:" ∨ impl.startsWith "optexc:" then "ok"   -- not accepted: outside the quantifier
+  else
+    match parseReq rest with
+    | none => "skip"
+    | some r =>
+      match (if useModel then optimised ms r else none) with
+      | some song =>
+        let j := judgeC03 (renderReq r song rest) impl
+        if j == "ok proved-fragment" then
+          -- an instance of `C03_optimised_song_wellformed_partial` needs C01's hypotheses on the original song as well
+          match (field impl "seq=").bind bytesOfHexNat with
+          | some seq => if provedInstanceO ms r seq then "ok proved-fragment (optimised)" else "ok"
+          | none => "ok"
+        else j
+      | none =>
+        let j := judgeC03 rest impl
+        if j == "ok proved-fragment" then "ok" else j
 
 def handlers : List Driver.Handler :=
   [{ cmd := "conv", model := model, judge := fun a i => judgeC02 a i },
-   { cmd := "convo", model := modelO, judge := judgeO },
-   { cmd := "convox", model := fun _ => optModelDeclines, judge := judgeO },
-   { cmd := "convwf", model := model, judge := judgeC03 }]
+   { cmd := "convo", model := modelO, judge := judgeO true },
+   { cmd := "convox", model := fun _ => optModelDeclines, judge := judgeO false },
+   { cmd := "convwf", model := model, judge := judgeC03 },
+   { cmd := "convwfo", model := modelO, judge := judgeWfO true },
+   { cmd := "convwfox", model := fun _ => optModelDeclines, judge := judgeWfO false }]
 end Driver.ConvD
